@@ -92,6 +92,12 @@ func init() {
 			}
 			e["out"] = q["c"]
 			e["pstable"] = c17Prev.check(out)
+			// "returned as it is": a line of fewer than two vertices comes back the value it was - an empty line stays an
+			// empty line (not nil), nil stays nil
+			e["asis"] = 1
+			if len(vs) < 2 && ((fn == "Resample" && n > 0) || (fn == "ToInterval" && dn > 0)) && ((out == nil) != (ls == nil) || len(out) != len(ls)) {
+				e["asis"] = 0
+			}
 			// the same line - the very same slice, spare capacity and all - resampled once more at another resolution: the
 			// first result is the caller's and stays what it was
 			if total > 0 && len(vs) >= 2 && c17Calls%3 == 0 {
@@ -201,6 +207,14 @@ func init() {
 			side := 1 - 2*c.rng.Intn(2)
 			// a hair: 1e-10 relative - far above the rounding of one float64 division, far below anything a caller means
 			d := float64(total) / float64(parts) * (1 + float64(side)*1e-10)
+			if c.rng.Intn(3) == 0 {
+				// ... or the very next float64 (when the line is an exact number of intervals long, the nearest other d):
+				// judged when the quotient the caller would compute, total / d, is itself on that side of the whole number
+				d = math.Nextafter(float64(total)/float64(parts), math.Inf(side))
+				if q := float64(total) / d; q == math.Trunc(q) {
+					continue
+				}
+			}
 			ls := make(orb.LineString, len(vs))
 			for j, v := range vs {
 				ls[j] = orb.Point{float64(v[0]), float64(v[1])}
